@@ -1662,6 +1662,13 @@ def iter_next(engine, ctx, it):
         return iter_next(engine, ctx, it.inner)
     if k == "empty":
         return None
+    if k == "peekable":
+        if it.has_peek:
+            it.has_peek = False
+            v = it.peeked
+            it.peeked = None
+            return v
+        return iter_next(engine, ctx, it.inner)
     raise Untranslatable("iterator kind %s" % k)
 
 
@@ -3220,3 +3227,49 @@ def m_str_contains_char(engine, ctx, args, callee, frame):
     for i in range(n):
         c = b_or(c, int_binop("Eq", int_cast(b.byte(i), 32, False), ch))
     return c
+
+
+
+@model(r"^<.* as (std::iter::)?Iterator>::peekable$|^(std::iter::)?Iterator::peekable$")
+def m_peekable(engine, ctx, args, callee, frame):
+    return IterV("peekable", inner=as_iter(engine, ctx, args[0]), has_peek=False, peeked=None)
+
+
+@model(r"^(std::iter::)?Peekable::<.*>::(peek|peek_mut)$")
+def m_peek(engine, ctx, args, callee, frame):
+    it = deref(args[0])
+    if not it.has_peek:
+        it.peeked = iter_next(engine, ctx, it.inner)
+        it.has_peek = True
+        it.peek_cell = Cell(it.peeked)
+    if it.peeked is None:
+        return none()
+    return some(Ref(it.peek_cell))
+
+
+@model(r"^(std::iter::)?Peekable::<.*>::next_if::<")
+def m_next_if(engine, ctx, args, callee, frame):
+    it = deref(args[0])
+    p = m_peek(engine, ctx, [args[0]], "Peekable::<I>::peek", frame)
+    if p.variant == "None":
+        return none()
+    if ctx.branch(engine.call_closure(args[1], [p.fields[0].v])):
+        return some(iter_next(engine, ctx, it))
+    return none()
+
+
+@model(r"^<.* as PartialOrd(<.*>)?>::(lt|le|gt|ge)$", generic=True)
+def m_partial_ord_default(engine, ctx, args, callee, frame):
+    """provided methods of PartialOrd: defined through partial_cmp of the implementing type"""
+    m = re.match(r"^<(.*) as PartialOrd(<.*>)?>::(lt|le|gt|ge)$", callee)
+    ty, op = m.group(1), m.group(3)
+    a, b = args
+    while ty.startswith("&"):
+        ty = re.sub(r"^&(?:'[a-z_]+ )?(?:mut )?", "", ty)
+        if isinstance(a, Ref) and isinstance(a.cell.v, Ref):
+            a, b = a.cell.v, b.cell.v
+    r = engine.call_named("<%s as PartialOrd>::partial_cmp" % ty, [a, b], frame)
+    if r.variant == "None":
+        return False
+    o = r.fields[0].v.variant
+    return {"lt": o == "Less", "le": o in ("Less", "Equal"), "gt": o == "Greater", "ge": o in ("Greater", "Equal")}[op]
